@@ -1179,7 +1179,15 @@ type sumKey struct {
 type resultSummary struct {
 	nonNeg  bool
 	leLenOf []int // parameter indexes j such that result <= len(param j)
-	done    bool
+	// idxOfField: (parameter j, field F) such that every return yields a negative constant or a value
+	// < len(param_j.F), and the callee (transitively) never writes F
+	idxOfField []paramField
+	done       bool
+}
+
+type paramField struct {
+	param int
+	field *types.Var
 }
 
 // summary of an integer result of a module function: result >= 0, and
@@ -1244,6 +1252,69 @@ func (bd *Bounds) summary(fn *ssa.Function, idx int) *resultSummary {
 	for j := range le {
 		s.leLenOf = append(s.leLenOf, j)
 	}
+	// result indexes a slice field of a pointer parameter: "-1 or a valid index of p.F"
+	type cand struct {
+		pf   paramField
+		load ssa.Value
+	}
+	var cands []cand
+	for _, in := range AllInstrs(fn) {
+		u, ok := in.(*ssa.UnOp)
+		if !ok || u.Op != token.MUL {
+			continue
+		}
+		fa, ok := u.X.(*ssa.FieldAddr)
+		if !ok {
+			continue
+		}
+		if _, isSl := u.Type().Underlying().(*types.Slice); !isSl {
+			continue
+		}
+		f, base := FieldOfAddr(fa)
+		if f == nil || bd.mayWrite(fn, f, map[*ssa.Function]bool{}) {
+			continue
+		}
+		for j, prm := range fn.Params {
+			if Through(base) == ssa.Value(prm) {
+				cands = append(cands, cand{paramField{j, f.Origin()}, u})
+			}
+		}
+	}
+	okPF := map[paramField]bool{}
+	for _, c := range cands {
+		okPF[c.pf] = true
+	}
+	for pf := range okPF {
+		for _, ret := range rets {
+			for _, v := range ReturnValues(ret, idx) {
+				if k, isK := ConstInt(v); isK && k < 0 {
+					continue
+				}
+				proved := false
+				for _, c := range cands {
+					if c.pf != pf {
+						continue
+					}
+					pr := bd.newProver(ret)
+					pr.depth = 1
+					t := pr.termOf(v)
+					l := pr.lenTerm(c.load)
+					pr.pathFacts()
+					pr.refresh()
+					if pr.prove(t, l, -1) {
+						proved = true
+						break
+					}
+				}
+				if !proved {
+					delete(okPF, pf)
+				}
+			}
+		}
+	}
+	for pf := range okPF {
+		s.idxOfField = append(s.idxOfField, pf)
+	}
 	return s
 }
 
@@ -1258,6 +1329,34 @@ func (bd *Bounds) applySummary(pr *prover, t Term, callee *ssa.Function, call *s
 	for _, j := range s.leLenOf {
 		if j < len(call.Call.Args) {
 			pr.add(t, pr.lenTerm(call.Call.Args[j]), 0)
+		}
+	}
+	// "-1 or a valid index of arg_j.F": once the result is known non-negative it is below the length of every
+	// load of that field on the same object between which and the call nothing writes the field
+	if len(s.idxOfField) > 0 && pr.entails(Zero, t, 0) {
+		caller := call.Parent()
+		for _, pf := range s.idxOfField {
+			if pf.param >= len(call.Call.Args) {
+				continue
+			}
+			arg := call.Call.Args[pf.param]
+			for _, in := range AllInstrs(caller) {
+				u, ok := in.(*ssa.UnOp)
+				if !ok || u.Op != token.MUL {
+					continue
+				}
+				fa, ok := u.X.(*ssa.FieldAddr)
+				if !ok {
+					continue
+				}
+				f, base := FieldOfAddr(fa)
+				if f == nil || f.Origin() != pf.field || !(Through(base) == Through(arg) || bd.sameVal(base, arg)) {
+					continue
+				}
+				if bd.fieldStable(caller, f, call, u) {
+					pr.add(t, pr.lenTerm(u), -1)
+				}
+			}
 		}
 	}
 	if reason, ok := bd.MinFuncs[callee]; ok && reason != "" {
